@@ -1,8 +1,76 @@
-(* C10 — Diff output transforms the old config into the new; rollback is its mirror. *)
+(* C10 — Diff output transforms the old config into the new; rollback is its mirror.
+   PARTIAL claim: the statements are about the Gallina model (Model/Diff.v) of ciscoconfparse2.Diff and
+   of the option-neutral core of the third-party hier_config library it wraps; the model is tied to
+   the real code by the correspondence streams of harness/props/c10.py.
+
+   Vocabulary:  load f         the hierarchical config denoted by input form f (sibling-unique forest)
+                paths t        the set of hierarchical lines of t (each line with its ancestors)
+                get_diff o n   the printed diff lines;  parse_out reads them back into commands
+                               (a line at depth d is a command under the d most recent enclosing lines)
+                removal_target c = Some tgt   c is `no x` under its ancestors and names line tgt;
+                               None: c is an addition
+                apply_cmds     adds each addition, removes a named line together with its subtree
+                no_negated f   no line of f starts with "no "  (then `no x` can only mean removal) *)
 From Coq Require Import NArith ZArith List Bool.
 Require Import CCP.Lib.PyStr CCP.Model.Diff CCP.Proofs.C10Proofs.
 Import ListNotations.
 
+(* applying the diff's commands to the old config yields exactly the new config's set of lines *)
+Theorem C10_diff_apply : forall old new : form, no_negated old -> no_negated new ->
+  forall p, In p (apply_cmds (parse_out (get_diff old new)) (paths (load old))) <-> In p (paths (load new)).
+Proof. exact diff_apply. Qed.
+Print Assumptions C10_diff_apply.
+
+(* every added command is a line of the new config, and is absent from the old config unless it is
+   the printed context (a strict prefix) of a later command *)
+Theorem C10_diff_adds_absent : forall old new : form, no_negated old -> no_negated new ->
+  forall c, In c (parse_out (get_diff old new)) -> removal_target c = None ->
+  In c (paths (load new)) /\
+  (In c (paths (load old)) -> exists c', In c' (parse_out (get_diff old new)) /\ strict_prefix c c' = true).
+Proof. exact diff_adds_absent. Qed.
+Print Assumptions C10_diff_adds_absent.
+
+(* every removal names a line present in the old config and absent from the new one *)
+Theorem C10_diff_removes_present_and_gone : forall old new : form, no_negated old -> no_negated new ->
+  forall c tgt, In c (parse_out (get_diff old new)) -> removal_target c = Some tgt ->
+  In tgt (paths (load old)) /\ ~ In tgt (paths (load new)).
+Proof. exact diff_removes_present_and_gone. Qed.
+Print Assumptions C10_diff_removes_present_and_gone.
+
+(* the diff of a config with itself is empty (any config, any form) *)
+Theorem C10_diff_self_empty : forall f : form, get_diff f f = [].
+Proof. exact diff_self_empty. Qed.
+Print Assumptions C10_diff_self_empty.
+
+(* the rollback from old to new is the diff from new to old *)
 Theorem C10_rollback_is_mirror : forall old new : form, get_rollback old new = get_diff new old.
 Proof. exact rollback_is_mirror. Qed.
 Print Assumptions C10_rollback_is_mirror.
+
+(* list, tuple, string and file forms of the same lines denote the same config; None the empty one *)
+Theorem C10_forms_same_config : forall ls : list str, Forall nobreak ls ->
+  load (FList ls) = load_lines ls /\ load (FTuple ls) = load_lines ls /\
+  load (FStr (join linesep ls)) = load_lines ls /\ load (FFile (join linesep ls)) = load_lines ls.
+Proof. exact forms_same_config. Qed.
+Print Assumptions C10_forms_same_config.
+
+Theorem C10_form_none : load FNone = load_lines [] /\ load (FList []) = load_lines [] /\ load (FStr []) = load_lines [].
+Proof. exact form_none. Qed.
+Print Assumptions C10_form_none.
+
+(* hence diff and rollback depend only on the configs denoted, not on the input forms *)
+Theorem C10_forms_same_diff : forall a a' b b' : form, load a = load a' -> load b = load b' ->
+  get_diff a b = get_diff a' b' /\ get_rollback a b = get_rollback a' b'.
+Proof. exact forms_same_diff. Qed.
+Print Assumptions C10_forms_same_diff.
+
+(* the loader never produces two siblings with the same text (hier_config merges duplicates) *)
+Theorem C10_load_unique_siblings : forall f : form, uniq (load f).
+Proof. exact load_uniq. Qed.
+Print Assumptions C10_load_unique_siblings.
+
+(* the model's output passes the very check that the correspondence applies to the real output *)
+Theorem C10_model_passes_check : forall old new : form, no_negated old -> no_negated new ->
+  spec_ok (paths (load old)) (paths (load new)) (parse_out (get_diff old new)) = true.
+Proof. exact model_passes_check. Qed.
+Print Assumptions C10_model_passes_check.
